@@ -92,6 +92,14 @@ def run(res, b, tier, seed):
             flags = dict(panic_in_func=False, empty_substr=False, minint=False, switch_break=False, switch_break_static=False, switch_tag_call=False, range_call=False)
             for name, src, exp, clash in DIRECTED:
                 cases.append(pipeline.Case("d-" + name, {"main.tsh": src.encode()}, meta=dict(src=src, expected_out=exp, expected_status=0, case_clash=clash, **flags)))
+            # the directed programs of the function / scope / spelling properties (written for the Bash target, hand-computed output):
+            # the same meaning under cmd.exe's rules (round 8: C10-B, C15-A - Batch-only changes of how locals and lengths are named)
+            import semprop
+            for prop in ("C01", "C02", "C03", "C04", "C07", "C10"):
+                for name, j in semprop.load_corpus(prop):
+                    cases.append(pipeline.Case("c-%s-%s" % (prop, name), {"main.tsh": j["src"].encode()},
+                                               meta=dict(src=j["src"], expected_out="".join(l + "\n" for l in j["stdout"]), expected_status=j["status"], case_clash=False,
+                                                         corpus=True, **flags)))
         pipeline.run_pipe(b, cases, "w")
         pipeline.model_batch(b, cases)
         for c in cases:
@@ -105,6 +113,8 @@ def run(res, b, tier, seed):
         sims = common.pmap_proc(_sim, [bytes.fromhex(c.out["BATCH"][1]).decode("utf-8", "replace") for c in runnable], chunksize=4)
         for c, r in zip(runnable, sims):
             outcome[r[0]] = outcome.get(r[0], 0) + 1
+            if c.meta.get("corpus") and r[0] == "stuck":
+                continue            # files, programs: outside the cmd model (the Bash side of those programs is executed for real)
             if r[0] != "ok" or r[1] != c.meta["expected_out"] or r[2] != c.meta["expected_status"]:
                 fails.append((c, "behaviour under the cmd model", r))
             probs = batchcheck.analyse(bytes.fromhex(c.out["BATCH"][1]).decode("utf-8", "replace"))
